@@ -791,6 +791,12 @@ class S15(object):
             return
         st, after = self.snap()
         if after != before:
+            if self.src in ('lines', 'raw') and any(_data_tail_lead(t) for t in self.lines.values()):
+                # the known relinking quirk (token lead byte at the end of DATA text) shows here as well: a failed
+                # SAVE,A re-links the program. Same cause, same class.
+                self.v('image-differs:data-line-ends-in-token-lead-byte:%s' % fmt,
+                       'program memory changed after a failed SAVE(%s) (first difference at %d)' % (fmt, _first_diff(after, before)))
+                return
             self.v('save-fault-changed-program:%s:%s' % (fmt, op['at']),
                    'injected %s during SAVE(%s) to %s: program memory changed (first difference at %d)' % (kind, fmt, dev, _first_diff(after, before)))
         if r.err is None:
